@@ -16,6 +16,7 @@ open Kit.Coalescing
 /-- Observed events. -/
 inductive Ev where
   | runcall | addcall | addret | closecall | closeret | cancel | runret
+  | runerr                   -- a `Run` call returned "already running"
   | adv (t : Nat)            -- clock moved
   | recv (t : Nat)           -- consumer received a signal, stamped with the clock
   | hin (park : Bool)        -- hook coalescing.inputHandled (park: the harness keeps the loop there)
@@ -84,6 +85,7 @@ def tauSucc (cfg : Config) (hooks : Bool) (d : DState) : List DState :=
 def quiescent (cfg : Config) (hooks : Bool) (d : DState) : Bool :=
   (tauSucc cfg hooks d).isEmpty && d.rAdd == 0 && d.uIn == 0 && d.uTm == 0 && d.blocked != 1
   && (step cfg d.m .closeRet).isNone && (step cfg d.m .runRet).isNone
+  && (step cfg d.m .runErrRet).isNone
 
 /-- Effect of one observed event on one state (`none` = this state cannot have produced it),
 with the model label it corresponds to (if any). -/
@@ -98,6 +100,7 @@ def obsStepL (cfg : Config) (hooks : Bool) (ev : Ev) (d : DState) : Option (Opti
   | .closeret => viaModel .closeRet
   | .cancel => viaModel .cancel
   | .runret => viaModel .runRet
+  | .runerr => viaModel .runErrRet
   | .adv t => viaModel (.advance t)
   | .recv t => if t == d.m.now then viaModel .consume else none
   | .hin park =>
